@@ -9,21 +9,24 @@ Every theorem is about the definitions the driver `c16drv` executes, quantifies 
 histories / latency inputs, and is followed by a non-vacuity `example`.
 
 Clause map of the property statement:
-* thresholds, "only after k consecutive failures, no success in between" — `dead_only_after_threshold`,
-  `threshold_reached_kills`, `below_threshold_stays`;
+* thresholds — `dead_only_after_threshold` ("only after"), `kth_consecutive_failure_kills` ("exactly at", back to
+  back), `threshold_reached_kills`, `below_threshold_stays`;
 * forced report / escalation — `forced_report_kills_immediately`, `escalation_takes_all_types_down`,
   `escalation_only_after_three_deaths`;
 * success revives and clears — `success_revives_and_clears`, `data_udp_traffic_revives`,
   `traffic_success_clears_traffic_count`;
 * cancellation / teardown never counts — `ignorable_never_counts`, `canceled_probe_never_counts`;
-* reload suppression — `suppressed_failures_dont_count`, `suppression_window`;
+* reload suppression — `suppressed_failures_dont_count`, `suppression_window` (definitional), `suppression_steps`;
 * callbacks exactly once per transition — `callbacks_on_edges_only`, `callbacks_on_edges_only_history`;
-* every group sees the node's state — `groups_see_state`;
-* kernel bit — `kernel_bit`, `group_callbacks_are_edges`, `random_policy_never_writes`, `kernel_key_injective`
-  (the code as of fix addc261: the `time.Hour` start value no longer bounds selectable latencies);
-* reload — `reload_hands_over_state`, `reload_snapshot_drops_counters`, `reload_leaves_every_group_selectable`
-  (whole `InheritDialerHealthFrom`, all groups, shared nodes; `reload_old_order_leaves_group_empty` shows the
-  pre-fix order violates it), `reload_floor_leaves_selectable` (one floor step).
+* every group sees the node's state — `groups_see_state`; under concurrency (separate interleaving model)
+  `concurrent_reports_agree_at_quiescence`, `captured_value_protocol_can_disagree`;
+* kernel bit — `kernel_bit`, `group_callbacks_are_edges`, `random_policy_never_writes`, `kernel_key_injective`,
+  `kernel_key_slots`, `kernel_callback_guards`; the map shared by generations:
+  `kernel_map_changed_only_by_live_report`, `kernel_map_untouched_by_wiring_and_retirement`,
+  `kernel_map_is_last_live_report_partial`;
+* reload — `reload_hands_over_state`, `reload_snapshot_drops_counters`, `handover_matches_per_group`,
+  `handover_unmatched_node_untouched`, `reload_leaves_every_group_selectable`,
+  `reload_old_order_leaves_group_empty`, `reload_floor_leaves_selectable` (one floor step).
 -/
 namespace DaeVerif.C16.Props
 open DaeVerif.C16
